@@ -132,6 +132,7 @@ type Task struct {
 	wake      chan struct{} // bubble mode
 	yields    int64
 	prio      int
+	failEpoch int64 // scheduler epoch at which this task was last released to probe a lock
 
 	panicked bool
 }
@@ -157,10 +158,11 @@ type Sim struct {
 
 	onces  [64]onceState
 	nonces int
+	wg     sync.WaitGroup
 
 	panicsMu    sync.Mutex
 	pctChange   []int64
-	lockFails   int
+	epoch       int64
 	pendingEvs  [MaxTasks]int8
 	startedReal time.Time
 }
@@ -324,6 +326,9 @@ func (s *Sim) Spawn(name string, fn func()) *Task {
 	}
 	s.tasks[id] = t
 	s.ntasks = int32(id + 1)
+	if s.cfg.Mode == ModeSpin {
+		s.wg.Add(1)
+	}
 	go s.taskMain(t, fn)
 	return t
 }
@@ -349,6 +354,9 @@ func (s *Sim) taskExit(t *Task) {
 		s.markPanicked(t)
 	}
 	s.finish(t)
+	if s.cfg.Mode == ModeSpin {
+		s.wg.Done()
+	}
 }
 
 //go:norace
@@ -522,6 +530,11 @@ func Run(cfg Config, setup func(s *Sim)) *Result {
 	t0 := time.Now()
 	setup(s)
 	s.schedule()
+	if cfg.Mode == ModeSpin && s.res.Outcome == OutDone {
+		// real synchronisation only at the very end of a run: the harness may
+		// then read what the tasks recorded without racing with them
+		s.wg.Wait()
+	}
 	cur.Store(nil)
 	s.res.SimTime = time.Since(t0)
 	s.collect()
@@ -634,8 +647,17 @@ func (s *Sim) schedule() {
 			res.Outcome = OutStepLimit
 			return
 		}
-		onlyLockers := len(runnable) > 0 && lockers == len(runnable)
-		if len(runnable) == 0 || (onlyLockers && s.lockFails > 2*lockers+2) {
+		// a lock-waiting task is worth releasing only if somebody else ran
+		// since its last failed probe (nothing can have freed the lock otherwise)
+		elig := runnable[:0]
+		for _, t := range runnable {
+			if t.state == stLockWait && t.failEpoch >= s.epoch {
+				continue
+			}
+			elig = append(elig, t)
+		}
+		runnable = elig
+		if len(runnable) == 0 {
 			if s.cfg.Mode == ModeSpin || blocked == 0 {
 				res.Outcome = OutDeadlock
 				return
@@ -647,7 +669,7 @@ func (s *Sim) schedule() {
 			select {
 			case <-s.kick:
 				timer.Stop()
-				s.lockFails = 0
+				s.epoch++ // a task woke up by itself: lock holders may have moved
 				continue
 			case <-timer.C:
 				res.Outcome = OutDeadlock
@@ -660,11 +682,8 @@ func (s *Sim) schedule() {
 			return
 		}
 		res.Steps++
-		if t.state == stLockWait {
-			s.lockFails++
-		} else {
-			s.lockFails = 0
-		}
+		s.epoch++
+		t.failEpoch = s.epoch
 		if s.current != nil && s.current != t {
 			res.Switches++
 			if s.current.state == stParked && s.isFocus(s.current.site) {
